@@ -281,8 +281,8 @@ theorem open_input_fast_path_eq (α inv : K) (ms : List (List K × List K)) (ap 
 
 /-- **Shape validation.** The circuit accepts exactly the shapes the native verifier accepts,
 *provided*: (H1) the proof has the verifier's number of queries — the circuit has no such
-parameter; (H2) the schedule's log-arities are within `1..=max_log_arity` — the circuit has no
-bound (and accepts 0); (H3) every matrix has an opening point; (H4) every matrix height is the
+parameter; (H2) the schedule's log-arities are at most `max_log_arity` — the circuit has no upper
+bound (the lower bound `1 ≤ log_arity` is checked by both since fixes/C07-2); (H3) every matrix has an opening point; (H4) every matrix height is the
 maximum or one reached by a fold phase — otherwise the circuit constrains that reduced opening
 to zero where native rejects; (H5) one beta per commitment; (H6) the height bound is the field's
 two-adicity (the circuit checks 31 bits); (H7) there is at least one fold phase — the circuit
@@ -290,7 +290,7 @@ rejects zero-phase proofs that native accepts. Each of H1, H2, H4, H7 is necessa
 `P3R.C07.Witness.*`, and the corresponding inputs are replayed on the real code. -/
 theorem fri_shape_iff (sv : ShapeVec)
     (H1 : sv.queries.length = sv.p.numQueries)
-    (H2 : ∀ la ∈ sv.firstArities, 1 ≤ la ∧ la ≤ sv.p.maxLogArity)
+    (H2 : ∀ la ∈ sv.firstArities, la ≤ sv.p.maxLogArity)
     (H3 : ∀ b ∈ sv.batches, ∀ m ∈ b, m.2 ≠ [])
     (H4 : ∀ h ∈ sv.heights, h = sv.logMax ∨ h ∈ sv.foldedHeights)
     (H5 : sv.numBetas = sv.numCommits)
@@ -298,26 +298,30 @@ theorem fri_shape_iff (sv : ShapeVec)
     (H7 : sv.numCommits ≠ 0) :
     CircuitShapeOk sv ↔ NativeShapeOk sv := by
   constructor
-  · rintro ⟨_, _, c3, _, c5, _, c7, c8, c9, c10, c11⟩
+  · rintro ⟨_, _, c3, _, cpos, c5, _, c7, c8, c9, c10, c11⟩
     refine ⟨?_, ?_, ?_, ?_, H6.2, c10, c11, ?_, c8, H1, c9, H3, ?_, H4⟩
     · intro h
       rw [h] at H1
       exact c5 (List.eq_nil_of_length_eq_zero H1)
     · intro q hq; rw [(c7 q hq).1, H5]
-    · intro q hq la hla; rw [(c7 q hq).2.1] at hla; exact H2 la hla
+    · intro q hq la hla; rw [(c7 q hq).2.1] at hla; exact ⟨cpos la hla, H2 la hla⟩
     · intro q hq; exact (c7 q hq).2.1
     · rw [← c3, H5]
     · intro q hq; exact (c7 q hq).2.2
-  · rintro ⟨n1, n2, _, n4, _, n6, n7, n8, n9, n10, n11, _, n13, _⟩
+  · rintro ⟨n1, n2, n3, n4, _, n6, n7, n8, n9, n10, n11, _, n13, _⟩
     have hne : sv.queries ≠ [] := by
       intro h
       rw [h] at n10
       exact n1 n10.symm
-    refine ⟨le_trans H6.2 H6.1, H5, by rw [H5, n8], ?_, hne, by rw [H5]; exact H7, ?_, n9, n11, n6, n7⟩
-    · obtain ⟨q0, rest, hq⟩ := List.exists_cons_of_ne_nil hne
-      have : sv.firstArities = q0.arities := by simp [ShapeVec.firstArities, hq]
-      rw [this, H5]
-      exact n2 q0 (by rw [hq]; exact List.mem_cons_self)
+    obtain ⟨q0, rest, hq⟩ := List.exists_cons_of_ne_nil hne
+    have hfa : sv.firstArities = q0.arities := by simp [ShapeVec.firstArities, hq]
+    have hq0 : q0 ∈ sv.queries := by rw [hq]; exact List.mem_cons_self
+    refine ⟨le_trans H6.2 H6.1, H5, by rw [H5, n8], ?_, ?_, hne, by rw [H5]; exact H7, ?_, n9, n11, n6, n7⟩
+    · rw [hfa, H5]
+      exact n2 q0 hq0
+    · intro la hla
+      rw [hfa] at hla
+      exact (n3 q0 hq0 la hla).1
     · intro q hq
       exact ⟨by rw [H5]; exact n2 q hq, n4 q hq, n13 q hq⟩
 
